@@ -4,10 +4,10 @@ From CV Require Import Base.Wire Model.Tnet Model.Logix Model.RunLogix Model.Rou
 Import ListNotations.
 Open Scope Z_scope.
 
-(* seg: port kind(0 num/1 ip) a b c d *)
+(* seg: port kind(0 num/1 ip/2 other address string) a b c d *)
 Definition p_seg : P seg := fun l =>
   match l with
-  | p :: k :: a :: b :: c :: d :: t => Some ((p, if k =? 0 then LNum a else LIp a b c d), t)
+  | p :: k :: a :: b :: c :: d :: t => Some ((p, if k =? 0 then LNum a else if k =? 1 then LIp a b c d else LText a), t)
   | _ => None
   end.
 
@@ -20,7 +20,7 @@ Definition p_opath : P (option (list seg)) := fun l =>
   end.
 
 Definition enc_seg (s : seg) : list Z :=
-  match s with (p, LNum n) => [p; 0; n; 0; 0; 0] | (p, LIp a b c d) => [p; 1; a; b; c; d] end.
+  match s with (p, LNum n) => [p; 0; n; 0; 0; 0] | (p, LIp a b c d) => [p; 1; a; b; c; d] | (p, LText t) => [p; 2; t; 0; 0; 0] end.
 
 (* kind 0: [0; cfg; rp]                         -> [accept]
    kind 1: [1; n; text bytes]                   -> [1; n; segs] | [0]
